@@ -408,11 +408,12 @@ theorem C17_getopt_complete_no_panic (specs : List C38.OptionSpec) (cfg : Nat)
     ∃ out, C38.completeGetoptOut specs r = .ok out :=
   C38_complete_getopt_dispatch_no_panic specs cfg args r h
 
-/-- `str:repeat` (C41): the overflow guard (no integer division by zero, no
-wrapped product).  NOT covered: Go's allocator refusing the result — see the
-finding `alloc-str:repeat` in notes/C17.md. -/
-theorem C17_str_repeat_no_panic (s : Bytes) (n : Int) : (C41.strRepeat s n).isPanic = false :=
-  C41_repeat_no_panic s n
+/-- `str:repeat` (C41): the overflow guard and the size cap (results above
+`C41.maxRepeatLen` bytes are a BadValue error, so Go's allocator is never asked
+for more than any platform can give: `maxAlloc` is the platform's limit). -/
+theorem C17_str_repeat_no_panic (maxAlloc : Int) (hA : C41.maxRepeatLen ≤ maxAlloc) (s : Bytes) (n : Int) :
+    (C41.strRepeatA maxAlloc s n).isPanic = false :=
+  C41_repeat_no_panic maxAlloc hA s n
 
 /-- `str:replace` (C41). -/
 theorem C17_str_replace_no_panic (max : Int) (old repl s : Bytes) : ∃ r, C41.strReplace max old repl s = .ok r :=
@@ -436,11 +437,14 @@ theorem C17_wcwidth_trim_no_panic (wd : Int → Int) (s : Bytes) (wmax : Int) (i
     (h : C34.trimIdx wd (runes s) 0 wmax = some i) (hw : 0 ≤ wmax) : slice s 0 i = .ok (s.take i) :=
   C34_trim_slice_in_bounds wd s wmax i h hw
 
-/-- LSP server (C44): every well-formed request is answered (no nil dereference, no index out of range). -/
-theorem C17_lsp_answers_every_request (empty : C44.Doc) (s : C44.Server) (hasId : Bool) (r : C44.Req)
-    (he : empty.wf) (hs : s.wf) (hr : r.wf) :
-    ∃ o, C44.serve .fixed empty s hasId r = .ok o ∧ o.srv.wf ∧ (o.reply = .none ↔ hasId = false) :=
-  C44_answers_every_request empty s hasId r he hs hr
+/-- LSP server (C44): every well-formed request is answered (no nil dereference, no index out of
+range).  `ParserHeads` (every Indexing node of a parsed tree has a Primary head) is C44's remaining
+stated hypothesis about the parser; requests other than hover need none
+(`C44_answers_every_request_but_hover`). -/
+theorem C17_lsp_answers_every_request (lib : C44.Lib) (empty : C44.Text) (s : C44.Server) (hasId : Bool) (r : C44.Req)
+    (he : empty.wf) (hs : s.wf lib) (hr : r.wf) (hh : C44.ParserHeads lib.isPrint) :
+    ∃ o, C44.serve .fixed lib empty s hasId r = .ok o ∧ o.srv.wf lib ∧ (o.reply = .none ↔ hasId = false) :=
+  C44_answers_every_request lib empty s hasId r he hs hr hh
 
 /-! ### imported in round 2 -/
 
